@@ -66,7 +66,7 @@ def generate(rng, cfg: Dict) -> Dict:
         fields = []
         for j in range(c.int(0, 4)):
             kind = c.weighted([("builtin", 2), ("opt_builtin", 1.5), ("enum", 1), ("opt_enum", 0.7), ("list_builtin", 1.5), ("one_to_one", 3), ("opt_one", 2.5), ("one_to_many", 3), ("type_valued", 1.5), ("private", 1.2)])
-            f = {"name": f"f{i}_{j}", "kind": kind, "as_string": c.chance(0.45)}
+            f = {"name": f"f{i}_{j}", "kind": kind, "as_string": c.weighted([(False, 5), (True, 3), ("inner", 2)])}
             if kind in ("builtin", "opt_builtin", "list_builtin"):
                 f["target"] = c.pick(BUILTINS)
                 f["container"] = c.pick(["List", "Set"])
@@ -85,7 +85,7 @@ def generate(rng, cfg: Dict) -> Dict:
     for k, cl in enumerate(classes):
         for f in cl["fields"]:
             t = f["target"]
-            if t in index and (index[t] >= k or classes[index[t]]["module"] != cl["module"]):
+            if t in index and (index[t] >= k or classes[index[t]]["module"] != cl["module"]) and not f["as_string"]:
                 f["as_string"] = True
         # bases must be importable: keep bases in the same module
         cl["bases"] = [b for b in cl["bases"] if classes[index[b]]["module"] == cl["module"]]
@@ -144,6 +144,9 @@ def annotation(f: Dict) -> str:
         text = f"Type[{t}]"
     else:
         raise ValueError(k)
+    if f["as_string"] == "inner" and text != t:
+        # only the class name is quoted: Optional["X"], List["X"], Type["X"]
+        return text.replace(f"[{t}]", f"[{t!r}]")
     return repr(text) if f["as_string"] else text
 
 
